@@ -9,6 +9,7 @@ import (
 	"sync/atomic"
 	"testing"
 	"time"
+	"unsafe"
 
 	hessian "github.com/vogo/gohessian"
 	"pgregory.net/rapid"
@@ -159,7 +160,10 @@ func TestC12(t *testing.T) {
 		// ---- calls that fail, and calls on a stream of two messages (one-shot decode of the first, continuous
 		// read of the second): alone first, with the same maps
 		nReal := len(vals)
-		extras := c12Extras(vals[0], vals[1%len(vals)], tm, nm, rapid.IntRange(0, 1<<20).Draw(rt, "extraPick"))
+		extras, badAlone := c12Extras(vals[0], vals[1%len(vals)], tm, nm, rapid.IntRange(0, 1<<20).Draw(rt, "extraPick"))
+		if badAlone != "" {
+			failf(rt, c, "C12 (one call after the other, each on a fresh Serializer over the shared maps) %s", badAlone)
+		}
 		withExtras := rapid.IntRange(0, 2).Draw(rt, "withFailingAndStreamCalls") != 0
 		nmBefore := copyNames(nm)
 		n := rapid.SampledFrom([]int{2, 4, 16, 64}).Draw(rt, "goroutines")
@@ -545,6 +549,8 @@ type c12Extra struct {
 	encBad interface{} // encode of a value that is refused
 	decIn  []byte      // one-shot decode of these octets (garbage, or a stream of two messages)
 	second bool        // decIn holds two messages: one-shot decode, then one continuous read
+	want   interface{} // when set: the value decIn denotes (the call alone must produce it, too)
+	bad    string
 	err1   string
 	obj1   interface{}
 	err2   string
@@ -562,6 +568,13 @@ func (x *c12Extra) alone(tm map[string]reflect.Type, nm map[string]string) bool 
 		}
 		x.obj1, err = s.ToObject(x.decIn)
 		x.err1 = errStr(err)
+		if x.want != nil {
+			if err != nil {
+				x.bad = fmt.Sprintf("%s failed: %v", x.what, err)
+			} else if cerr := vcmp.Equal(x.want, x.obj1, nm); cerr != nil {
+				x.bad = fmt.Sprintf("%s gave another value than the octets denote: %v", x.what, cerr)
+			}
+		}
 		if x.second {
 			x.obj2, err = s.Read()
 			x.err2 = errStr(err)
@@ -604,6 +617,9 @@ func (x *c12Extra) run(ser hessian.Serializer, enc *hessian.Encoder, dec *hessia
 		if cerr := vcmp.EqualValues(x.obj1, o1); cerr != nil {
 			return fmt.Sprintf("%s differs from the result of the same call run alone: %v", x.what, cerr)
 		}
+		if where := sharedObject(x.obj1, o1); where != "" {
+			return fmt.Sprintf("%s: the result shares the object at %s with the result of an earlier call on another instance (what one caller does to its result shows in the other's)", x.what, where)
+		}
 	}
 	if x.second {
 		if errStr(e2) != x.err2 {
@@ -630,8 +646,24 @@ var c12BadValues = []struct {
 }
 
 // c12Extras builds the extra calls for one case and runs each alone.
-func c12Extras(a, b *c12Value, tm map[string]reflect.Type, nm map[string]string, pick int) []*c12Extra {
+func c12Extras(a, b *c12Value, tm map[string]reflect.Type, nm map[string]string, pick int) ([]*c12Extra, string) {
 	var out []*c12Extra
+	// two peers that list the fields of one class in different orders (and one that sends fewer): every decoder
+	// reads its own stream's definition
+	tm["F3"], tm["F5"], tm["Inner"], tm["[string"] = reflect.TypeOf(zoo.F3{}), reflect.TypeOf(zoo.F5{}), reflect.TypeOf(zoo.Inner{}), reflect.TypeOf([]string{})
+	f3 := reflect.ValueOf(&zoo.F3{A: int32(pick % 100000), B: "bee", C: 2.5}).Elem()
+	f5 := reflect.ValueOf(&zoo.F5{A: int32(pick % 1000), B: "b", C: []string{"x", "y"}, D: zoo.Inner{A: 9, S: "d"}, E: []byte{1, 2}}).Elem()
+	perms3, perms5 := permutations(3), permutations(5)
+	for i := 0; i < 3; i++ {
+		for _, pr := range []struct {
+			v    reflect.Value
+			perm []int
+		}{{f3, perms3[(pick+i*5)%len(perms3)]}, {f5, perms5[(pick+i*37)%len(perms5)]}, {f5, perms5[(pick+i*11)%len(perms5)][:4]}} {
+			obj, exp := c05Render(pr.v, c05Plan{order: pr.perm})
+			out = append(out, &c12Extra{what: fmt.Sprintf("decode of a %s whose definition lists the fields in the order %v", pr.v.Type().Name(), pr.perm),
+				decIn: refcodec.Encode(obj, refcodec.Canonical{}, refcodec.EncOptions{}), want: exp})
+		}
+	}
 	for _, bv := range c12BadValues {
 		out = append(out, &c12Extra{what: bv.what, encBad: bv.v()})
 	}
@@ -655,13 +687,23 @@ func c12Extras(a, b *c12Value, tm map[string]reflect.Type, nm map[string]string,
 			out = append(out, &c12Extra{what: "one-shot decode of the first of two messages (" + pr[0].desc + ")", decIn: append([]byte{}, buf.Bytes()...), second: true})
 		}
 	}
+	tm["Color"] = reflect.TypeOf(zoo.Color{})
+	for _, name := range []string{"RED", "GREEN"} {
+		out = append(out, &c12Extra{what: "decode of the enum constant " + name + " (an instance of a class whose one field is \"name\")",
+			decIn: refcodec.Encode(&av.V{K: av.Object, Type: "Color", Fields: []string{"name"}, Elems: []*av.V{av.StringV(name)}}, refcodec.Canonical{}, refcodec.EncOptions{}),
+			want:  &zoo.Color{Name: name}})
+	}
 	keep := out[:0]
+	bad := ""
 	for _, x := range out {
 		if x.alone(tm, nm) {
 			keep = append(keep, x)
 		}
+		if x.bad != "" && bad == "" {
+			bad = x.bad
+		}
 	}
-	return keep
+	return keep, bad
 }
 
 // c12ColdErrors: several goroutines, each with instances of its own, hit every refusing path for the first time
@@ -740,4 +782,70 @@ func c12ColdErrors(t *testing.T, r *rec.Rec) {
 	r.EvalN(int64(n * (len(c12BadValues) + 2*len(small))))
 	r.NonTrivial(av.Hash("cold-error-sites"))
 	r.Label("cold-start:first-concurrent-use-of-the-refusing-paths")
+}
+
+// sharedObject reports a struct that is reachable (through pointers, lists, maps, interface slots) from both
+// results: the values two decode calls return are the callers' own.
+func sharedObject(a, b interface{}) string {
+	seen, visited := map[unsafe.Pointer]bool{}, map[unsafe.Pointer]bool{}
+	var walk func(v reflect.Value, path string, collect bool, depth int) string
+	walk = func(v reflect.Value, path string, collect bool, depth int) string {
+		if depth > 40 || !v.IsValid() {
+			return ""
+		}
+		switch v.Kind() {
+		case reflect.Interface:
+			if !v.IsNil() {
+				return walk(v.Elem(), path, collect, depth+1)
+			}
+		case reflect.Ptr:
+			if v.IsNil() || v.Type().Elem().Kind() != reflect.Struct || v.Type().Elem() == zoo.TimeType || v.Type().Elem().Size() == 0 {
+				return ""
+			}
+			p := v.UnsafePointer()
+			if collect {
+				if seen[p] {
+					return ""
+				}
+				seen[p] = true
+			} else {
+				if seen[p] {
+					return path
+				}
+				if visited[p] {
+					return ""
+				}
+				visited[p] = true
+			}
+			return walk(v.Elem(), path, collect, depth+1)
+		case reflect.Struct:
+			if v.Type() == zoo.TimeType {
+				return ""
+			}
+			for i := 0; i < v.NumField(); i++ {
+				if w := walk(v.Field(i), path+"."+v.Type().Field(i).Name, collect, depth+1); w != "" {
+					return w
+				}
+			}
+		case reflect.Slice:
+			if v.Type().Elem().Kind() == reflect.Uint8 {
+				return ""
+			}
+			for i := 0; i < v.Len() && i < 50; i++ {
+				if w := walk(v.Index(i), fmt.Sprintf("%s[%d]", path, i), collect, depth+1); w != "" {
+					return w
+				}
+			}
+		case reflect.Map:
+			it := v.MapRange()
+			for n := 0; it.Next() && n < 50; n++ {
+				if w := walk(it.Value(), path+"[..]", collect, depth+1); w != "" {
+					return w
+				}
+			}
+		}
+		return ""
+	}
+	walk(reflect.ValueOf(a), "<result>", true, 0)
+	return walk(reflect.ValueOf(b), "<result>", false, 0)
 }
